@@ -110,16 +110,17 @@ class History:
             return "script:%d%s" % (self.seed, pid)
         return "os"
 
-    def setup(self, missing_a=(), missing_b=(), prologue=None):
+    def setup(self, missing_a=(), missing_b=(), prologue=None, supply=("needed", "needed")):
         p = self.parsed
         self.missing = {"A": set(missing_a), "B": set(missing_b)}
+        self.supply = supply
         for pid, role, res, rec in (("A", True, self.res[0], self.rec[0]), ("B", False, self.res[1], self.rec[1])):
-            kw = sessions.party_kwargs(p, self.keys, role)
+            kw = sessions.party_kwargs(p, self.keys, role, supply[0 if role else 1])
             kw["psks"] = {n: v for n, v in kw["psks"].items() if n not in self.missing[pid]}
             self.c.party(pid, "i" if role else "r", p.name, res=res, rng=self._rng(pid), prologue=prologue, rec=rec, **kw)
         if self.twin:
             for pid, role, res in (("A2", True, self.res[0]), ("B2", False, self.res[1])):
-                kw = sessions.party_kwargs(p, self.keys, role)
+                kw = sessions.party_kwargs(p, self.keys, role, supply[0 if role else 1])
                 self.c.party(pid, "i" if role else "r", p.name, res=res, rng=self._rng(pid), prologue=prologue, rec="r", **kw)
         la, lb = self.c.op("build", "A"), self.c.op("build", "B")
         if self.twin:
